@@ -89,8 +89,10 @@ func ForceSelfClosingTags(b []byte) []byte {
 		openingTagContents := sm[2]
 		closingTag := sm[3]
 
-		if !bytes.Equal(openingTag, closingTag) {
-			// we found a chunk that contains an already "self closed" tag, ignore this
+		if !bytes.Equal(openingTag, closingTag) ||
+			bytes.HasSuffix(openingTagContents, []byte("/")) {
+			// we found a chunk that contains an already "self closed" tag (possibly one with the
+			// same name as its parent, i.e. `<a><a x="1"/></a>`), ignore this
 			continue
 		}
 
